@@ -155,12 +155,12 @@ UNITS.append(set_tags_at_0)
 
 
 # ------------------------------------------------------------------------------ TAPSMolecule.obtain_methylation_calls
-def calls_setup(eng):
+def calls_setup(eng, empty=False):
     eng.ghost.clear()
     eng.ghost['consensus_kwargs'] = None
     eng.ghost['context_calls'] = []
     eng.spec_env['GHOST'] = eng.ghost
-    cons = {('chr1', 10): named(STR, 'base_10'), ('chr1', 20): named(STR, 'base_20')}
+    cons = {} if empty else {('chr1', 10): named(STR, 'base_10'), ('chr1', 20): named(STR, 'base_20')}
     eng.spec_env['CONS'] = cons
 
     class Phreds:
@@ -176,6 +176,8 @@ def calls_setup(eng):
 
     def get_consensus(e, f, args, kwargs, node):
         e.ghost['consensus_kwargs'] = dict(kwargs)
+        if empty:
+            return ({}, None, None)      # get_consensus(with_probs_and_obs=True) of a molecule without a usable base
         return (dict(cons), Phreds(), None)
     eng.loader.call_hooks[Q + 'molecule.Molecule.get_consensus'] = get_consensus
 
@@ -224,6 +226,18 @@ obtain = Contract(
                  'positions (the comprehension treats positions independently)'],
 )
 UNITS.append(obtain)
+
+# a molecule whose mate-overlap-safe span holds no convertible base: get_consensus returns ({}, None, None); the (empty) call
+# set is still written - the reads get their call string and totals like any other molecule
+obtain_empty = _copy.copy(obtain)
+obtain_empty.name = 'TAPSMolecule.obtain_methylation_calls[no convertible base in the safe span]'
+obtain_empty.setup = lambda eng: calls_setup(eng, True)
+obtain_empty.ensures = {
+    'only_the_convertible_reference_base_is_considered': obtain.ensures['only_the_convertible_reference_base_is_considered'],
+    'no_calls': 'len(result) == 0',
+    'tags_are_written_all_the_same': '("tagged_with" in GHOST) and (GHOST["tagged_with"] is result)',
+}
+UNITS.append(obtain_empty)
 
 
 def extra_units():
